@@ -12,6 +12,7 @@ import (
 	openfgav1 "github.com/openfga/api/proto/openfga/v1"
 	"google.golang.org/grpc/status"
 	"google.golang.org/protobuf/proto"
+	"google.golang.org/protobuf/types/known/wrapperspb"
 	"google.golang.org/protobuf/types/known/structpb"
 
 	"github.com/openfga/openfga/internal/verifsim/gen"
@@ -246,10 +247,21 @@ func c19Gen(runSeed uint64, tier string) *gen.Scenario {
 	}
 	base := sc.Requests
 	sc.Requests = nil
-	kinds := []string{"check", "check", "listobjects", "listusers", "expand", "batch", "write", "read", "changes", "assertions"}
+	kinds := []string{"check", "check", "listobjects", "listusers", "expand", "batch", "write", "read", "changes", "assertions", "paging", "paging"}
 	for i := 0; i < 14 && len(base) > 0; i++ {
 		r := gen.Pick(g, base)
 		r.Kind = gen.Pick(g, kinds)
+		if r.Kind == "paging" {
+			// a continuation token nobody issued: what a token decodes to is backend-specific (an offset, an
+			// id, a serialised struct), so well-formed encodings of hostile payloads reach the backend
+			r = gen.Request{Kind: "paging",
+				Rel:   gen.Pick(g, []string{"ReadAuthorizationModels", "ListStores", "Read", "ReadChanges"}),
+				Obj:   gen.Pick(g, []string{"-1", "0", "3", "99999", "9223372036854775807", "9223372036854775800", "-9223372036854775808", "18446744073709551616", "1e9", "0x10", " 7", "{}", "[]", "null", "{\"ulid\":\"x\",\"ObjectType\":\"\"}", "01HVXR1FST0RE0000000000001", "01HVXR1FST0RE0000000000001|doc", "|", "\x00", ""}),
+				Type:  gen.Pick(g, []string{"std", "url", "rawurl", "plain"}),
+				Limit: gen.Pick(g, []int{1, 2, 50, 100})}
+			sc.Requests = append(sc.Requests, r)
+			continue
+		}
 		r.Type = rm.ObjType(r.Obj)
 		r.Filter = "user"
 		switch g.Intn(8) {
@@ -478,6 +490,31 @@ func c19Exec(t *testing.T, sc *gen.Scenario, trace bool) *harness.Outcome {
 			case "changes":
 				ok = call(what, func(ctx context.Context) error {
 					_, err := s.ReadChanges(ctx, &openfgav1.ReadChangesRequest{StoreId: e.StoreID, Type: rq.Type, ContinuationToken: trunc(rq.Obj)})
+					return err
+				})
+			case "paging":
+				tok := rq.Obj
+				switch rq.Type {
+				case "std":
+					tok = base64.StdEncoding.EncodeToString([]byte(rq.Obj))
+				case "url":
+					tok = base64.URLEncoding.EncodeToString([]byte(rq.Obj))
+				case "rawurl":
+					tok = base64.RawURLEncoding.EncodeToString([]byte(rq.Obj))
+				}
+				ps := wrapperspb.Int32(int32(rq.Limit))
+				ok = call(fmt.Sprintf("%s(page %d, token %s of %q)", rq.Rel, rq.Limit, rq.Type, rq.Obj), func(ctx context.Context) error {
+					var err error
+					switch rq.Rel {
+					case "ReadAuthorizationModels":
+						_, err = s.ReadAuthorizationModels(ctx, &openfgav1.ReadAuthorizationModelsRequest{StoreId: e.StoreID, PageSize: ps, ContinuationToken: tok})
+					case "ListStores":
+						_, err = s.ListStores(ctx, &openfgav1.ListStoresRequest{PageSize: ps, ContinuationToken: tok})
+					case "Read":
+						_, err = s.Read(ctx, &openfgav1.ReadRequest{StoreId: e.StoreID, PageSize: ps, ContinuationToken: tok})
+					case "ReadChanges":
+						_, err = s.ReadChanges(ctx, &openfgav1.ReadChangesRequest{StoreId: e.StoreID, PageSize: ps, ContinuationToken: tok})
+					}
 					return err
 				})
 			case "assertions":
